@@ -119,6 +119,14 @@ let judge_case (c : scase) (o : iobs) =
   (match consume o.written calls with
    | Some f -> report "C03" c ("a frame does not carry the command and address of the call it was written for: " ^ f)
    | None -> ());
+  (* one frame per attempt: when results and received bytes are the model's, so is the number of frames
+     (C04_frames_written, C06_one_write_per_exchange: the model writes one frame per attempt) *)
+  if o.results = List.map res_string mresults && hex_of_bytes o.deliv = hex_of_bytes mfinal.pt.delivered then begin
+    bump applicable "C03";
+    let mw = List.length mfinal.pt.written in
+    if List.length o.written <> mw then
+      report "C03" c (Printf.sprintf "%d frames written where the attempts made call for %d (one frame per attempt)" (List.length o.written) mw)
+  end;
   (* ---- C04: abstract line machine (fault-free, EOF-mode scripts; get calls only) ---- *)
   let no_faults = List.for_all (fun b -> not b) c.wf && not c.np in
   let rec empty_run l n best = match l with
